@@ -59,7 +59,19 @@ def exact_round(x, sr):
 def run_history(util, c, ops, kind, sr, sw, ch, durs, tmpdir, use_recorder_class=False, tag="a"):
     """Execute ops on a real AudioReader; returns (log, info)."""
     data = make_audio(c["n"], sw, ch)
-    inp, kw, cleanup = make_input(kind, data, sr, sw, ch, tmpdir, tag)
+    if kind == "source_positioned":
+        # a BufferAudioSource object that already stands somewhere: `pre` foreign samples (ids above n) come first and the caller has moved
+        # the position past them through the public setter; the reader's stream is what follows
+        from auditok import io as _aio
+        pre = 1 + (c["n"] + c["b"]) % 5
+        if c["n"] + pre + 1 <= max_ids(sw, ch):
+            src_ = _aio.BufferAudioSource(make_audio(pre, sw, ch, first=c["n"] + 1) + data, sr, sw, ch)
+            src_.position = pre
+            inp, kw, cleanup = src_, {}, (lambda: None)
+        else:
+            inp, kw, cleanup = make_input("source", data, sr, sw, ch, tmpdir, tag)
+    else:
+        inp, kw, cleanup = make_input(kind, data, sr, sw, ch, tmpdir, tag)
     log = []
     info = {}
     try:
@@ -87,6 +99,9 @@ def run_history(util, c, ops, kind, sr, sw, ch, durs, tmpdir, use_recorder_class
                 elif op == "rewind":
                     r.rewind()
                     log.append({"op": "rewind", "k": "ok", "ids": []})
+                elif op == "close":
+                    r.close()
+                    log.append({"op": "close", "k": "ok", "ids": []})
                 else:
                     k, ids = decode(r.data, sw, ch)
                     if k == "empty":     # an empty recording is a legitimate value of .data
@@ -152,12 +167,24 @@ def _replay_chunk(args):
         if "open" not in ops_ and b.get("closed"):
             ops_ = ops_ + ["never-open"]          # a history whose reads all happen before any open(): keep the reader closed
         got, info = run_history(util, c, ops_, kind, sr, sw, ch, durs, d, use_recorder_class=(base + j) % 2 == 0)
-        if c["lim"] == 0:
-            # before open(), with nothing visible, both an I/O error and None are behaviours of the specification
-            oi = next((k_ for k_, e_ in enumerate(exp) if e_["op"] == "open"), len(exp) if b.get("closed") else 0)
-            for k_ in range(min(oi, len(exp), len(got))):
-                if exp[k_]["op"] == "read" and got[k_]["op"] == "read" and {exp[k_]["k"], got[k_]["k"]} <= {"AudioIOError", "none"}:
-                    got[k_] = dict(exp[k_])
+        # on a CLOSED reader the specification leaves open whether a read raises an I/O error or answers None where the code may do either
+        # (nothing visible before open(); exhausted limiter or dead overlap generator after close()): positions where the reader is closed
+        first_open = next((k_ for k_, e_ in enumerate(exp) if e_["op"] == "open"), None)
+        is_open = not (first_open is not None and not any(e_["op"] == "close" for e_ in exp[:first_open])) and not ("open" not in ops_ and b.get("closed"))
+        rewound = False
+        for k_ in range(min(len(exp), len(got))):
+            e_ = exp[k_]
+            if not is_open and e_["op"] == "read" and got[k_]["op"] == "read" and {e_["k"], got[k_]["k"]} <= {"AudioIOError", "none"} \
+                    and (c["lim"] == 0 or any(x_["op"] == "close" for x_ in exp[:k_])):
+                got[k_] = dict(e_)
+            if e_["op"] == "open":
+                is_open = True
+            elif e_["op"] == "close":
+                is_open = False
+            elif e_["op"] == "rewind" and e_["k"] == "ok":
+                if not rewound:
+                    is_open = True
+                rewound = True
         ok = got == exp and info.get("block_size") == c["b"] and info.get("hop_size") == c["h"]
         if not ok:
             bad.append({"c": c, "kind": kind, "fmt": [sr, sw, ch], "durs": durs, "expected": exp, "got": got, "info": info})
@@ -251,19 +278,38 @@ def gen_history(rng, tier):
     vis = n if lim < 0 else min(n, lim)
     nblocks = 1 + max(0, -(-(vis - b) // h)) if vis > 0 else 0
     ops = []
+    closed_once = False
+    passes = 0
     for _ in range(rng.randint(1, 4) if rec else 1):
         k = rng.choice([0, 1, nblocks // 2, nblocks, nblocks + 1, nblocks + 3, rng.randint(0, nblocks + 3)])
         ops += ["read"] * min(k, 80)
         if rng.random() < .3:
             ops.append("data")
+        closing = rec and not closed_once and rng.random() < .25
+        if closing:
+            # close() before the rewind: what was recorded must still be what the rewind exposes
+            closed_once = True
+            ops.append("close")
+            ops += ["read"] * rng.choice([0, 0, 1, 2]) + (["data"] if rng.random() < .3 else [])
         ops.append("rewind")
+        if closing and passes > 0:
+            ops.append("open")           # a later rewind leaves a closed recorder closed: open() it again
+        passes += 1
         if rng.random() < .5:
             ops.append("data")
     ops = ["read"] * rng.choice([0, 0, 0, 1, 2, 3]) + ["open"] + ops          # reads before open() raise and leave no trace
     if not rec:
         # non-recording readers: data / rewind raise AttributeError; one probe of each is enough
         ops = [o for o in ops if o in ("read", "open")] + rng.choice([[], ["rewind"], ["data"], ["data", "rewind"], ["rewind", "read", "data"]])
-    return c, ops, rng.choice(KINDS), sr, sw, ch, durs
+    return c, ops, rng.choice(KINDS + ["source_positioned"]), sr, sw, ch, durs
+
+
+def long_history(rng):
+    """More reads than any internal block cache could hold (thousands of one-sample blocks), replayed after the rewind."""
+    n = 4200 + rng.randint(0, 300)
+    c = {"n": n, "b": 1, "h": 1, "lim": -1, "rec": True}
+    ops = ["open"] + ["read"] * (n + 1) + ["rewind", "data"] + ["read"] * (n + 1) + ["rewind"] + ["read"] * 3
+    return c, ops, rng.choice(["bytes", "raw_lazy", "source_positioned"]), 1000, 2, 1, {"block_dur": 1.5 / 1000}
 
 
 def reject_table(util, tmpdir):
@@ -325,6 +371,11 @@ def check(prop, tier, replay=None):
 
     # ---- leg R
     t0 = time.time()
+    if tier == "quick":
+        # histories with a close() add 60 % to the export: the quick tier replays a seeded sample of them (and every history without)
+        withc = [b for b in behaviours if any(e["op"] == "close" for e in b["log"])]
+        rng.shuffle(withc)
+        behaviours = [b for b in behaviours if not any(e["op"] == "close" for e in b["log"])] + withc[:25000]
     tot, bad = replay_behaviours(behaviours, tmpdir)
     V.cov["traces_validated_against_impl"] += tot
     V.count(tot, (canon(b) for b in behaviours if any(e["k"] == "blk" for e in b["log"])))
@@ -359,17 +410,18 @@ def check(prop, tier, replay=None):
     traces = []
     budget = 12000 if tier == "quick" else 150000
     ev = 0
+    longs = [long_history(rng) for _ in range(1 if tier == "quick" else 4)] if prop == "C19" else []
     while ev < budget:
-        g = gen_history(rng, tier)
+        g = longs.pop() if longs else gen_history(rng, tier)
         if g is None:
             continue
         c, ops, kind, sr, sw, ch, durs = g
         log, info = run_history(util, c, ops, kind, sr, sw, ch, durs, tmpdir, use_recorder_class=rng.random() < .5, tag="t")
-        tr = {"c": c, "ev": log, "kind": kind, "fmt": [sr, sw, ch], "durs": durs, "info": info}
+        tr = {"c": c, "ev": log, "kind": kind, "fmt": [sr, sw, ch], "durs": durs, "info": info, "nomon": len(log) > 3000}
         traces.append(tr)
         ev += len(log) + sum(len(e["ids"]) for e in log) // 20
     cfg = "CONSTANTS MaxN = 0 MaxB = 0 MaxOps = 100000 FixD3 = TRUE\nSPECIFICATION TSpec\nCONSTRAINT Mon\nPOSTCONDITION Post\nCHECK_DEADLOCK FALSE\n"
-    rows, st = judge("ReaderTrace", cfg, traces, wd, "rt", strip=lambda x: {"c": x["c"], "ev": x["ev"]},
+    rows, st = judge("ReaderTrace", cfg, traces, wd, "rt", strip=lambda x: {"c": x["c"], "ev": x["ev"], "nomon": x.get("nomon", False)},
                      weight=lambda x: len(x["ev"]) + sum(len(e["ids"]) for e in x["ev"]) // 10)
     V.cov["states"] += st
     for tr, row in zip(traces, rows):
@@ -411,7 +463,7 @@ def check(prop, tier, replay=None):
     V.leg("T", traces=len(traces), events=sum(len(t_["ev"]) for t_ in traces), wall_s=round(time.time() - t0, 2))
     big = max(traces, key=lambda t_: len(t_["ev"]))
     V.sample({"leg": "T", "c": big["c"], "kind": big["kind"], "fmt": big["fmt"], "durs": big["durs"],
-              "ops": "".join({"read": "r", "rewind": "W", "data": "d", "construct": "C", "open": "O"}[e["op"]] for e in big["ev"])})
+              "ops": "".join({"read": "r", "rewind": "W", "data": "d", "construct": "C", "open": "O", "close": "X"}[e["op"]] for e in big["ev"])})
     shutil.rmtree(tmpdir, ignore_errors=True)
     return V.finish(
         rule="leg M: TLC exhaustive over all configurations (n,b,h,lim,rec) x operation histories of the bound; leg R: every exported "
